@@ -47,6 +47,7 @@ pub enum MutEnd {
 pub enum MutExtra {
     None,
     Reserve(u8),
+    ReserveExact(u8),
     /// `extend` with an iterator of n items whose size_hint under-reports (0, None)
     ExtendUnder(u8),
     /// `extend` with an iterator of n items whose size_hint over-reports (n+50, Some(n+50))
@@ -240,8 +241,8 @@ where
                 }
                 match spec.extra {
                     MutExtra::None => {}
-                    MutExtra::Reserve(n) => {
-                        v.reserve(n as usize);
+                    MutExtra::Reserve(n) | MutExtra::ReserveExact(n) => {
+                        if matches!(spec.extra, MutExtra::Reserve(_)) { v.reserve(n as usize) } else { v.reserve_exact(n as usize) }
                         if v.capacity() - v.len() < n as usize {
                             rep.unexpected = Some(format!("reserve({n}) left spare capacity {}", v.capacity() - v.len()));
                         }
@@ -379,6 +380,10 @@ where
             s.reserve(n as usize);
             snap(st0, s.allocator_stats(), "reserved", rep);
         }
+        if let MutExtra::ReserveExact(n) = spec.extra {
+            s.reserve_exact(n as usize);
+            snap(st0, s.allocator_stats(), "reserved", rep);
+        }
         if s.as_str() != expect {
             rep.unexpected = Some("string contents differ from the model while filling".into());
         }
@@ -491,6 +496,9 @@ where
                 }
                 if let MutExtra::Reserve(n) = spec.extra {
                     v.reserve(n as usize);
+                }
+                if let MutExtra::ReserveExact(n) = spec.extra {
+                    v.reserve_exact(n as usize);
                 }
                 match spec.end {
                     MutEnd::Drop => {
